@@ -121,6 +121,39 @@ def run(tier):
                         # the options CHANGE after the storm: something remembered from before it (a parse, a decision) is then stale
                         jobs.append((pre + (sym, "mov1", "sib0"), f, "ext 4096 H 0xcc" if nstorm % 2 else "int"))
                         nstorm += 1
+    # ---- programs from the WHOLE corpus (every instruction family) as earlier and as final programs: whatever an earlier call leaves
+    # behind per mnemonic / operand shape / line text then meets a final program that shares mnemonics (other operands), lines or
+    # everything with it - after a successful call, a call that failed in the middle, a counting call or a long call (> 4 KiB of text),
+    # with the options unchanged or changed in between
+    from .. import corpus
+    rep = corpus.representative(rnd, 2)
+    bymn = {}
+    for c in rep:
+        t = c["text"]
+        if t.startswith(("j", "call", "xbegin", "ret", "loop")):
+            continue
+        bymn.setdefault(t.split()[0], []).append(t)
+    mns = sorted(bymn)
+    CFG = ["mov0", "mov1", "all2", "sib0", "nobase1", "swap0", "all1", "chunk8", "chunk0", "chunk16"]
+    ncorp = 2500 if not full else 60000
+    for k in range(ncorp):
+        E = [rnd.choice(bymn[rnd.choice(mns)]) for _ in range(rnd.randrange(2, 12))]
+        how = k % 5
+        F = [l if rnd.random() < (1.0 if how == 4 else 0.4) else rnd.choice(bymn[l.split()[0]]) for l in E]
+        rnd.shuffle(F) if k % 3 == 0 else None
+        if how == 1:
+            Ecmd = "asm 0 %s" % common.hx("\n".join(E[:len(E) // 2] + [rnd.choice(["bogus rax", "mov rax, [rbx", "add rax, xmm1, 5"])] + E[len(E) // 2:]))
+        elif how == 2:
+            Ecmd = "cnt 0 %d %s" % (rnd.choice([2, 8, 16]), common.hx("\n".join(E)))
+        elif how == 3:
+            Ecmd = "asm 0 %s" % common.hx("\n".join(E * 40))
+        else:
+            Ecmd = "asm 0 %s" % common.hx("\n".join(E))
+        sym = "prog:%d" % k
+        table[sym] = ([Ecmd], False)
+        pre = tuple(rnd.sample(CFG, rnd.randrange(0, 3)))
+        mid = tuple(rnd.sample(CFG, rnd.randrange(0, 3))) if k % 2 else ()
+        jobs.append((pre + (sym,) + mid, (rnd.choice(["asm", "asm", "cnt 8"]), "\n".join(F)), "ext 4096 H 0xcc" if k % 2 else "int"))
     used = common.run_cases(binary, [script(h, f, table, False, kind) for (h, f, kind) in jobs], tag="c15u")
     fresh_keys = {}
     for (h, f, kind) in jobs:
@@ -130,7 +163,7 @@ def run(tier):
     fres = common.run_cases(binary, [script(k[0], k[1], table, True, k[2]) for k in fk], tag="c15f")
     for k, r in zip(fk, fres):
         fresh_keys[k] = outcome(r)
-    stats = {"storm_histories": nstorm, "exhaustive_histories_upto3": n_exh, "random_histories": len(hists) - n_exh, "final_calls": len(FINALS), "fresh_references": len(fk),
+    stats = {"storm_histories": nstorm, "exhaustive_histories_upto3": n_exh, "random_histories": len(hists) - n_exh, "final_calls": len(FINALS), "fresh_references": len(fk), "corpus_program_histories": ncorp, "corpus_mnemonics": len(mns),
              "final_ok": 0, "final_failed_consistently": 0}
     for (h, f, kind), r in zip(jobs, used):
         v.count()
@@ -161,7 +194,7 @@ def run(tier):
     v.cov["rule"] = ("histories over a 14-symbol alphabet (other instances created/destroyed, option setters, chunk on/off, set offset, successful / malformed / counting / failing-counting calls): ALL histories of "
                      "length <= 3 (2955) x 6 final calls, then seeded histories of length 4-30 over a 24-symbol alphabet (adds out-of-room calls, c<2 counting, debug, odd option values); caller and "
                      "library buffers alternate. After asm_set_offset the final call's (rc, offset, count, bytes) must equal the same call on a fresh instance that received only the history's "
-                     "configuration calls; bytes before the call's start must be intact. Plus 'storms': an assemble call, then one action (option / chunk toggles, offsets, small assemble or counting calls, failing calls, other instances created and destroyed) repeated N = 254..258, 510..514 (65534..65538 for option toggles) times, then the final call; and the ambient errno set to ERANGE/EINVAL before a call")
+                     "configuration calls; bytes before the call's start must be intact. Plus 'storms': an assemble call, then one action (option / chunk toggles, offsets, small assemble or counting calls, failing calls, other instances created and destroyed) repeated N = 254..258, 510..514 (65534..65538 for option toggles) times, then the final call; and the ambient errno set to ERANGE/EINVAL before a call; and programs drawn from the whole corpus (all instruction families) as earlier program (successful, failing in the middle, counting, > 4 KiB of text) and as final program sharing mnemonics / lines / everything with it, options unchanged or changed in between")
     v.cov["exhaustive"] = True
     v.cov.update(stats)
     return v.finish(None, stats["final_ok"] > 1000, "too few successful final calls: %r" % stats)
